@@ -483,6 +483,8 @@ func genTime(r *rng, boundary bool) time.Time {
 	if boundary {
 		c := []time.Time{
 			time.Unix(0, 0).In(loc),
+			{}, // the zero instant (also behind a non-nil pointer)
+			time.Time{}.In(loc),
 			time.Unix(1, 1).In(loc),
 			time.Date(9999, 12, 31, 9, 59, 59, 999999999, loc),
 			time.Date(1, 1, 2, 0, 0, 0, 1, loc),
